@@ -16,7 +16,6 @@ import (
 	"fmt"
 	"net/http"
 	"net/url"
-	"os"
 	"strings"
 	"testing"
 	"time"
@@ -364,9 +363,6 @@ func c04Check(c c04Case) *vResult {
 	}
 	// the vip fake counts pushes/otp checks; the DB must not change
 	accepted, resp := c04Present(w, c.Consumer, mutated)
-	if os.Getenv("VERIF_DEBUG") != "" {
-		fmt.Fprintf(os.Stderr, "DEBUG accepted=%v code=%d body=%q tok=%s\n", accepted, resp.Code, trunc(resp.Body, 200), mutated)
-	}
 	if resp.Panic != "" {
 		res.NonTrivial = true
 		res.violate("panic:"+c.Consumer, "%s panicked on a %s artefact with mutation %s: %s", c.Consumer, c.Producer, c.Mutation, firstLine(resp.Panic))
